@@ -133,6 +133,8 @@ def real_hedge_calls(reps, seed):
     o_es_call = es_mod.ESSearch.__call__
     es_mod.ESSearch.__call__ = lambda self, *a, **k: (np.zeros(2), 0.0)
     o_wm, o_ell = sh.ESSearchWM, sh.ESSearchELL
+    exp0 = var0 = 0.0
+    obs0 = 0
     st = np.random.get_state()
     np.random.seed(seed)
     try:
@@ -146,11 +148,19 @@ def real_hedge_calls(reps, seed):
             n += 1
             p = np.asarray(h.prob)
             ch = int(np.asarray(h.chosen_hedge).ravel()[0])
+            if np.all(np.isfinite(p)) and 0 <= ch < 2:
+                exp0 += float(p[0])
+                var0 += float(p[0] * (1 - p[0]))
+                obs0 += 1 if ch == 0 else 0
             if not (np.all(np.isfinite(p)) and abs(p.sum() - 1) <= 1e-12 and np.all(p >= h.gamma - 1e-15) and 0 <= ch < 2):
                 viol.setdefault("C18/hedge-probabilities-improper", {"prob": p.tolist(), "g": h.g.tolist(), "opts": opts})
     finally:
         es_mod.ESSearch.__call__ = o_es_call
         np.random.set_state(st)
+    # the strategy must actually be DRAWN from those probabilities: observed choices of strategy 0 vs the sum of its
+    # probabilities (seeded, so reproducible; 6-sigma band)
+    if var0 > 0 and abs(obs0 - exp0) > 6.0 * np.sqrt(var0) + 1:
+        viol.setdefault("C18/hedge-choice-not-following-probabilities", {"chosen_first": obs0, "expected": exp0, "sd": float(np.sqrt(var0)), "calls": n})
     return n, viol
 
 
